@@ -1664,6 +1664,28 @@ pub fn evaluate(case: &Case, results: &[Vec<RunResult>], report: &mut CaseReport
                     case.builds[bi].entry,
                     Entry::LibBuild | Entry::DriverFile { .. }
                 );
+                if through_add_file && e.contains("valid UTF-8") {
+                    // A file that is not text cannot be parsed: the error names the file.
+                    let bad: Vec<String> = world
+                        .module_files()
+                        .iter()
+                        .filter(|(_, b)| std::str::from_utf8(&b.0).is_err())
+                        .filter_map(|(p, _)| {
+                            std::path::Path::new(p.as_str())
+                                .file_name()
+                                .map(|f| f.to_string_lossy().into_owned())
+                        })
+                        .collect();
+                    if !bad.is_empty() {
+                        report.count("oracle:undecodable_file_identified_checked", 1);
+                        if !bad.iter().any(|f| e.contains(f.as_str())) {
+                            return Verdict::violation(
+                                "undecodable-file-not-identified",
+                                format!("build {bi}: none of {bad:?} is named in: {e}"),
+                            );
+                        }
+                    }
+                }
                 if through_add_file {
                     let mut is_parse_error = e.contains("failed to parse ");
                     let mut positioned = false;
